@@ -188,6 +188,16 @@ def _dwarf(ctx, data, follow, peers, max_dies):
         if _try(has, False):
             ents = _try(get)
             d['cfi'][kind] = None if ents is None else len(ents)
+    # independent raw models of the lookup tables (reference side)
+    from ..core import rawdwarf
+    le = dw.config.little_endian
+    d['raw_aranges'] = None
+    d['raw_pub'] = {}
+    if getattr(dw, 'debug_aranges_sec', None) is not None:
+        d['raw_aranges'] = rawdwarf.parse_aranges(dw.debug_aranges_sec.stream.data, le)
+    for which, nm in (('names', 'debug_pubnames_sec'), ('types', 'debug_pubtypes_sec')):
+        desc = getattr(dw, nm, None)
+        d['raw_pub'][which] = None if desc is None else rawdwarf.parse_pub(desc.stream.data, le)
     # lookup tables
     ar = _try(dw.get_aranges)
     d['aranges'] = None if ar is None else [(e.begin_addr, e.length, e.info_offset) for e in ar.entries]
